@@ -1,18 +1,26 @@
 import IrefVerif.Lemmas.Deque
 import IrefVerif.Spec.Path
+import IrefVerif.Lemmas.SegSched
 
 /-!
 # C12 — segment iteration and path queries agree with the `/`-split of the text
 
 Specification side, proved for all lists and all schedules: a double-ended iterator replayed
 under *any* interleaving of front and back steps yields every segment exactly once and in
-order; joining the `/`-split reproduces the text.  The implementation's two-offset iterator
-(`Model.Path.Segments`, transliterated from `SegmentsImpl`) is compared with this specification
-by the `paths` correspondence stream, exhaustively over all short paths and all schedules.
+order; joining the `/`-split reproduces the text.
+Model side (`iterator_any_schedule`): the *model of the two-offset iterator* `SegmentsImpl`
+(`Model.Path.Segments`: `next` scans forward with `segment_at`, `next_back` scans backward with
+`previous_segment_from`), started on any path text and driven by **any** finite schedule of
+`next` / `next_back` calls, yields exactly what the specification yields on the `/`-split of the
+path: every segment once, in order from both ends, and `none` for ever once the two offsets meet
+(`Lemmas/SegPos.lean`: segment positions, the forward and the backward move;
+`Lemmas/SegSched.lean`: induction over the schedule).  Forward-only and backward-only iteration
+are the special cases `forward_model` and `backward_model`.  The model is compared with the real
+iterator by the `paths` correspondence stream, exhaustively over all short paths and schedules.
 -/
 
 namespace IrefVerif.Props.C12
-open IrefVerif IrefVerif.Spec IrefVerif.Oracle IrefVerif.Lemmas
+open IrefVerif IrefVerif.Spec IrefVerif.Oracle IrefVerif.Lemmas IrefVerif.Model
 
 /-- **any interleaving**: front outputs, then what has not been yielded yet, then the back
 outputs in reverse, are exactly the segment list -/
@@ -50,6 +58,51 @@ theorem render_segs (p : Text) (h : stripRoot p ≠ []) : render (isAbs p) (segs
     · have hc' : (c == cSlash) = false := by simpa using hc
       simp only [isAbs, hc', stripRoot, Bool.false_eq_true, if_false, joinSlash_splitSlash]
       rfl
+
+/-! ## the model of the iterator -/
+
+/-- **any schedule of `next` / `next_back` on the model of the iterator** -/
+theorem iterator_any_schedule (p : Text) (hp : PathText p) (σ : List Bool) :
+    runSched p (Path.segments p) σ = (scheduleRem (segs p) σ).1 :=
+  iterator_schedule p hp σ
+
+/-- with `interleaving`: whatever the schedule, the segments yielded from the front, then those not
+yet yielded, then those yielded from the back in reverse, are the `/`-split of the path -/
+theorem iterator_partition (p : Text) (hp : PathText p) (σ : List Bool) :
+    fronts σ (runSched p (Path.segments p) σ) ++ (scheduleRem (segs p) σ).2
+      ++ (backs σ (runSched p (Path.segments p) σ)).reverse = segs p := by
+  rw [iterator_any_schedule p hp σ]
+  exact interleaving (segs p) σ
+
+/-- forward iteration of the model yields the segments in order -/
+theorem forward_model (p : Text) (hp : PathText p) : Path.segmentList p = segs p :=
+  segmentList_eq_segs p hp
+
+theorem schedule_all_back (l : List Text) :
+    ∀ n, l.length = n → (scheduleRem l (List.replicate n false)).1 = l.reverse.map some := by
+  intro n
+  induction n generalizing l with
+  | zero => intro h; have : l = [] := by cases l <;> simp_all
+            subst this; rfl
+  | succ n ih =>
+    intro h
+    have hne : l ≠ [] := by intro e; subst e; simp at h
+    rw [List.replicate_succ, scheduleRem_back l hne]
+    have hd : l.dropLast.length = n := by simp [h]
+    rw [ih l.dropLast hd]
+    have hl : l = l.dropLast ++ [l.getLast hne] := (List.dropLast_concat_getLast hne).symm
+    conv => rhs; rw [hl]
+    simp only [List.reverse_append, List.reverse_cons, List.reverse_nil, List.nil_append, List.cons_append,
+      List.map_cons]
+    rw [List.getLast?_eq_some_getLast hne]
+
+/-- backward iteration of the model yields the segments in reverse order -/
+theorem backward_model (p : Text) (hp : PathText p) :
+    runSched p (Path.segments p) (List.replicate (segs p).length false) = (segs p).reverse.map some := by
+  rw [iterator_any_schedule p hp, schedule_all_back _ _ rfl]
+
+example : runSched [0x2F, 0x61, 0x2F, 0x2F, 0x62] (Path.segments [0x2F, 0x61, 0x2F, 0x2F, 0x62])
+    [false, true, false, true, true] = [some [0x62], some [0x61], some [], none, none] := by decide
 
 example : scheduleRem [[0x61], [], [0x62]] [true, false, false, true] =
     ([some [0x61], some [0x62], some [], none], []) := by decide
